@@ -16,6 +16,7 @@ import SplinkVerif.Drv.Serialise
 import SplinkVerif.Drv.Creators
 import SplinkVerif.Drv.Entry
 import SplinkVerif.Drv.OneToOne
+import SplinkVerif.Drv.OtoSql
 import SplinkVerif.Drv.Tables
 import SplinkVerif.Drv.Levels
 /-! Line-protocol driver: one JSON object per input line, one JSON object per output line. -/
@@ -51,6 +52,7 @@ def dispatch (j : Json) : Except String Json := do
   | "entry" => handleEntry j
   | "sbl" => handleSBL j
   | "sbl_all" => handleSBLAll j
+  | "oto_sql" => handleOtoSql j
   | "tables_trace" => handleTablesTrace j
   | "levels_sat" => handleLevelsSat j
   | "levels_metric" => handleLevelsMetric j
